@@ -84,6 +84,10 @@ LAYOUTS = {
     "template_in_range_loop": ({"tinc.xbb": tinc(), "main.xbb": ["name main", "version 1.0", 'include "tinc.xbb"', "", "float x = %(f)s", "for float t in 1:4", "    tinc(alpha=t*x, beta=2) | [5, 6]"]}, "main.xbb"),
     "template_same_text_redeclared_variable": ({"tinc.xbb": tinc(), "main.xbb": ["name main", "version 1.0", 'include "tinc.xbb"', "", "float x = %(f)s", "tinc(alpha=x, beta=2) | [0, 1]",
                                                                                  "float x = %(f)s", "tinc(alpha=x, beta=2) | [0, 1]", "tinc(alpha=x, beta=2) | [2, 3]"]}, "main.xbb"),
+    # a mode listed twice in the call: the arity is the number of modes written, the renaming maps both to the same mode
+    "repeated_mode_in_call": ({"inc.xbb": inc2(), "main.xbb": ["name main", "version 1.0", 'include "inc.xbb"', "", "inc | [4, 4]", "Vac | 4"]}, "main.xbb"),
+    "bad_arity_repeated_mode": ({"inc.xbb": inc2(), "main.xbb": ["name main", "version 1.0", 'include "inc.xbb"', "", "inc | [4, 4, 5]"]}, "main.xbb"),
+    "bad_arity_repeated_mode_three": ({"inc3.xbb": inc3(), "main.xbb": ["name main", "version 1.0", 'include "inc3.xbb"', "", "inc3 | [1, 2, 1, 2]"]}, "main.xbb"),
     "target_and_include": ({"inc.xbb": inc2(), "main.xbb": ["name main", "version 1.0", "target X8 (shots=%(i)s)", 'include "inc.xbb"', "", "inc | [%(m)s, %(m)s]"]}, "main.xbb"),
     # mismatched calls must be refused
     "bad_arity": ({"inc.xbb": inc2(), "main.xbb": ["name main", "version 1.0", 'include "inc.xbb"', "", "inc | [%(m)s, %(m)s, %(m)s]"]}, "main.xbb"),
